@@ -1,8 +1,101 @@
 import RbV.Basic.Codec
-/-! Driver for property C04 (line protocol → verdict). -/
-namespace RbV.Drv.C04
-open RbV.Codec
+import RbV.Ref.SA
+import RbV.Model.Occ
+/-! Driver for property C04 (BWT, less, Occ for all sampling rates, inverse BWT).
 
-def verdict (_toks : List String) (_out : String) : String := "bad-op unimplemented"
+`c04 <text> k:<k> a:<alphabet> q:<query symbols> => <sa>;<bwt>;<less[c], c∈q>;<col(c)>/…;<inverse or ->`
+
+* bwt      = `bwtRef text sa`                               (and the mirror `bwtModel`)
+* less[c]  = `lessRef bwt c`                                (and the mirror `lessModel bwt (max a + 2)`)
+* col(c)   = `occCol bwt c`  (row r ↦ `occRef bwt r c`)      (and the mirror `occGet (occNewLoop bwt k c) bwt k r c`)
+* inverse  = text, for single-sentinel texts
+A disagreement between a mirror model and the observation where the specification agrees with the observation is
+reported as tag `drift` (cannot happen as long as the refinement theorems hold), never as a violation. -/
+namespace RbV.Drv.C04
+open RbV.Codec RbV RbV.OccM
+
+/-- `d<digits>`: first value and successive differences; `v<a>,<b>,…`: plain values -/
+def parseCol (s : String) : Option (List Nat) :=
+  match s.toList with
+  | 'd' :: ds =>
+    let rec go : List Char → Nat → Option (List Nat)
+      | [], _ => some []
+      | ch :: r, acc =>
+        if '0' ≤ ch ∧ ch ≤ '9' then
+          let v := acc + (ch.toNat - '0'.toNat)
+          (go r v).map (v :: ·)
+        else none
+    go ds 0
+  | 'v' :: _ => parseNatList (s.drop 1).toString
+  | _ => none
+
+def parseOptNat (s : String) : Option (Option Nat) :=
+  if s = "n" then some none else (s.toNat?).map some
+
+def firstDiff (a b : List Nat) : Nat :=
+  ((a.zip b).takeWhile (fun p => p.1 == p.2)).length
+
+def dedupTags (l : List String) : List String :=
+  l.foldl (fun acc s => if acc.contains s then acc else acc ++ [s]) []
+
+def verdict (toks : List String) (out : String) : String :=
+  match toks with
+  | [th, kf, af, qf] =>
+    match parseHex th, (field kf).bind (fun p => if p.1 = "k" then p.2.toNat? else none),
+          (field af).bind (fun p => if p.1 = "a" then parseHex p.2 else none),
+          (field qf).bind (fun p => if p.1 = "q" then parseHex p.2 else none) with
+    | some t, some k, some a, some q =>
+      if t.isEmpty || k = 0 || a.isEmpty then "bad-op input" else
+      match out.splitOn ";" with
+      | [saS, bwtS, lessS, colsS, invS] =>
+        match parseNatList saS, parseHex bwtS, parseList parseOptNat lessS, parseListNE parseCol colsS '/' with
+        | some sa, some bwt, some lessObs, some cols =>
+          let n := t.length
+          if lessObs.length ≠ q.length || cols.length ≠ q.length then "bad-op arity" else
+          -- BWT
+          let bwtE := bwtRef t sa
+          if bwt ≠ bwtE then "diff bwt:" ++ toHex bwtE else
+          let driftB := bwtModel t sa ≠ bwt
+          -- less
+          let lessE := q.map (fun c => some (lessRef bwt c))
+          if lessObs ≠ lessE then
+            "diff less:" ++ ",".intercalate (q.map fun c => toString (lessRef bwt c)) else
+          let m := a.foldl max 0 + 2
+          let lm := lessModel bwt m
+          let driftL := q.map (fun c => lm[c]?) ≠ lessObs
+          -- Occ
+          let bad := (q.zip cols).find? (fun p => p.2 ≠ occCol bwt p.1)
+          match bad with
+          | some (c, col) =>
+            let e := occCol bwt c
+            let r := firstDiff col e
+            "diff occ c:" ++ toString c ++ " r:" ++ toString r ++ " expected:" ++ toString (e.getD r 0)
+              ++ " got:" ++ (match col[r]? with | some v => toString v | none => "none")
+          | none =>
+            let rows := List.range n
+            let cps := q.map (fun c => (c, occNewLoop bwt k c))
+            let driftO := (cps.zip cols).any (fun p =>
+              rows.map (fun r => occGet p.1.2 bwt k r p.1.1) ≠ p.2)
+            let branches := dedupTags (cps.flatMap (fun p => dedupTags (rows.map (fun r => occBranch p.2 k r))))
+            -- inverse
+            let single := t.count (sentinelOf t) = 1
+            let invOk := if single then invS = toHex t else invS = "-"
+            if !invOk then "diff inv:" ++ (if single then toHex t else "-") else
+            let nt := n ≥ 4 && (dedupTags (bwt.map toString)).length ≥ 2
+            "ok" ++ (if nt then " nt" else "")
+              ++ (if k > 64 then " k>64" else " k<=64")
+              ++ (if n > 2 * k then " cp>=3" else "")
+              ++ (if k ≥ n then " k>=n" else "")
+              ++ (if q.any (fun c => !bwt.contains c) then " absent-sym" else "")
+              ++ (if single then " inv" else " multi-sent")
+              ++ (if !a.contains (sentinelOf t) then " sent-not-in-alphabet" else "")
+              ++ String.join (branches.map (" " ++ ·))
+              ++ (if driftB || driftL || driftO then " drift" else "")
+        | _, _, _, _ => "bad-op output"
+      | _ =>
+        if out.startsWith "PANIC" || out.startsWith "HANG" || out.startsWith "CRASH" then "reject " ++ out
+        else "bad-op output"
+    | _, _, _, _ => "bad-op parse"
+  | _ => "bad-op arity"
 
 end RbV.Drv.C04
